@@ -646,6 +646,36 @@ def fam_cluster(tier, base):
     with open(trace, "a") as f:
         f.write(open(rtrace).read())
     os.remove(rin); os.remove(rtrace)
+    # slow steps: a core instance with a global timeout of 1.5 s; call k of the operation takes longer than that (every
+    # deadline that covers it passes while it hangs), then is made under whatever is left of its context
+    sin, strace = base + ".slow.in.ndjson", base + ".slow.trace.ndjson"
+    picked = {}
+    for x in sel:
+        d = json.loads(x)
+        o = d["op"]
+        if d["mode"] != "fault" or d["nodes"][0]["kind"] != "plain2" or len(d["nodes"]) != 2 or d["nodes"][0]["down"]:
+            continue
+        if o["kind"] == "create":
+            if not (o["strategy"] == "AUTO" and o["count"] == 2 and not o["nodes"] and not d["wls"]):
+                continue
+            key = ("create", o["req"])
+            d["every"] = 3 if q else 1
+        elif o["kind"] in ("remove", "dissociate", "realloc", "replace", "setnode", "addnode", "removenode"):
+            if len(o["targets"]) > 1 or (o["kind"] == "remove" and not o["force"]) or (o["kind"] == "realloc" and o["delta"] != "cpu+") or (o["kind"] == "addnode" and o["nodes"] != ["n9"]):
+                continue
+            key = (o["kind"], "")
+            d["every"] = 2 if q else 1
+        else:
+            continue
+        if key not in picked:
+            d["mode"] = "timeout"
+            picked[key] = d
+    with open(sin, "w") as f:
+        f.write("\n".join(json.dumps(d) for d in picked.values()) + "\n")
+    verif.run_driver_sharded(b, "TestClusterFaults", sin, strace, shards=14, timeout=7000, env={"VERIF_GT_MS": "1500"})
+    with open(trace, "a") as f:
+        f.write(open(strace).read())
+    os.remove(sin); os.remove(strace)
     os.remove(inputs)
     viols, tr = verif.validate_trace("Trace_Cluster", "Trace_Cluster.cfg", trace, heap="16g")
     # second pass: the calls each single-workload remove / dissociate / realloc made are a behaviour of the ClusterOps
